@@ -2,7 +2,7 @@
    a case is an operation name and a list of generic arguments; the answer is a generic
    output value.  The OCaml driver (eval/driver.ml) only parses / prints these types. *)
 From Coq Require Import String.
-From ArrRs Require Import Base Arr Index Axis Broadcast Lift Split Reduce Sort Join Reorder Edit Bits Linalg Create Str Text Linsolve.
+From ArrRs Require Import Base Arr Index Axis Broadcast Lift Split Reduce Sort Join Reorder Edit Bits Linalg Create Str Text Linsolve Dyadic.
 From Coq Require QArith.
 Open Scope string_scope.
 Open Scope list_scope.
@@ -579,7 +579,7 @@ Definition table_solve : list (string * (list arg -> out)) :=
   [ ("solve", fun args => match args with
        | [AA s1 e1; AA s2 e2] =>
          let a := qmat_of s1 e1 in let b := qmat_of s2 e2 in
-         match solve a b with
+         match solve_checked (nats s1) (nats s2) a b with
          | Ok x => OList [oq (concat x); OZ (if residual_ok a x b then 1 else 0)%Z]
          | Err e => OErr e | Panic => OPanic | Fuel => OFuel end
        | _ => OBad end)
@@ -587,10 +587,21 @@ Definition table_solve : list (string * (list arg -> out)) :=
        | [AA s1 e1] => oq [det (qmat_of s1 e1)] | _ => OBad end)
   ].
 
+(* ---- C05: frexp / ldexp on exact dyadic values (mantissa array, exponent array) ---- *)
+Definition mkdy (sh ms es : list Z) : arr dy := mk (combine ms es) (nats sh).
+Definition table_dyadic : list (string * (list arg -> out)) :=
+  [ ("frexp", fun args => match args with
+       | [AA s ms; AA _ es] => out_res (fun p => OList [oparr (fst p); oarr (snd p)]) (frexp_arr (mkdy s ms es)) | _ => OBad end)
+  ; ("ldexp", fun args => match args with
+       | [AA s ms; AA _ es; AA sk ks] => out_res oparr (ldexp_arr (mkdy s ms es) (mka sk ks)) | _ => OBad end)
+  ; ("frexp_ldexp", fun args => match args with
+       | [AA s ms; AA _ es] => out_res oparr (let* p := frexp_arr (mkdy s ms es) in ldexp_arr (fst p) (snd p)) | _ => OBad end)
+  ].
+
 Definition table : list (string * (list arg -> out)) :=
   table_index ++ table_axis ++ table_broadcast ++ table_ew2 ++ table_ew1 ++ table_ops ++ table_reduce ++ table_sort
   ++ table_join ++ table_reorder ++ table_edit ++ table_bits ++ table_linalg ++ table_create ++ table_str ++ table_text
-  ++ table_solve.
+  ++ table_solve ++ table_dyadic.
 
 Fixpoint lookup (name : string) (t : list (string * (list arg -> out))) : option (list arg -> out) :=
   match t with
